@@ -223,7 +223,19 @@ def r2_lock_closure(ctx):
     )
     for w in walkers:
         ctx.touch(w)
+        problems = _walker_by_interpretation(ctx, oc, lock, w)
+        if problems is not None:
+            ctx.ob(
+                f"{w.key}:every-parent",
+                w.loc(),
+                f"{w.name}() interpreted on 7 derivation graphs (two-level chains with every mix of linked and plain edges, a fork, a diamond): exactly the ancestors the built child does not follow are locked, the linked ones stay open",
+                not problems,
+                "; ".join(problems[:2]),
+            )
+            continue
         wc = cfg_of(ctx, w)
+        if not _mixins_loops(w):
+            raise AnalysisError(f"{w.key}: the walk over the parents is neither interpretable nor a loop over self.mixins")
         for lp in _mixins_loops(w):
             var = lp.target.id
             good_stmts = []
@@ -252,18 +264,104 @@ def r2_lock_closure(ctx):
 
 
 def _parent_walkers(ctx, oc, lock):
-    """Methods (other than lock) looping over self.mixins and calling <mixin>.lock()."""
+    """Methods (other than lock) that call <parent>.lock() on something other than their receiver: the walk over
+    the parents, as a loop over self.mixins, a recursion or a work list."""
     out = []
     for m in oc.methods.values():
         if m is lock:
             continue
-        for lp in _mixins_loops(m):
-            for n in ast.walk(lp):
-                if isinstance(n, ast.Call) and isinstance(n.func, ast.Attribute) and n.func.attr == lock.name and dotted(n.func.value) == lp.target.id:
-                    if m not in out:
-                        out.append(m)
-    ctx.require(out, f"no method walks self.mixins calling {lock.name}() on each parent")
+        rv = recv_name(m)
+        for n in ast.walk(m.node):
+            if isinstance(n, ast.Call) and isinstance(n.func, ast.Attribute) and n.func.attr == lock.name and isinstance(n.func.value, ast.Name) and n.func.value.id != rv:
+                if m not in out:
+                    out.append(m)
+    ctx.require(out, f"no method walks the parents calling {lock.name}() on them")
     return out
+
+
+def _walker_by_interpretation(ctx, oc, lock, w):
+    """Interpret the parents walk on small derivation graphs (chains of two levels with every mix of linked and plain
+    edges, a fork, a diamond): -> problems, or None when the walk is not interpretable.  Reference: from the built
+    child, an edge created with linkback (the child is in the parent's `children`) is walked through and the parent
+    stays open; any other parent is locked with all its ancestors."""
+    from ..metainterp import HostInterp, Instance, Raised
+
+    raw = ctx.repo.raw_methods(oc)
+    if w.name not in raw or lock.name not in raw or w.node.args.vararg or len(w.node.args.args) != 1:
+        return None
+
+    def graph(edges):
+        nodes = {}
+        for a, b, linked in edges:
+            for x in (a, b):
+                if x not in nodes:
+                    o = Instance(oc.name, raw)
+                    o.__dict__.update(mixins=[], children=[], _locked=False, linkback=False, name=x, _compiled=False, _defns={})
+                    nodes[x] = o
+        for a, b, linked in edges:
+            nodes[a].mixins.append(nodes[b])
+            if linked:
+                nodes[b].children.append(nodes[a])
+                nodes[a].linkback = True
+        return nodes
+
+    def reference(edges, start):
+        up = {}
+        for a, b, linked in edges:
+            up.setdefault(a, []).append((b, linked))
+        locked = set()
+
+        def lock_all(n):
+            if n in locked:
+                return
+            locked.add(n)
+            for b, _ in up.get(n, []):
+                lock_all(b)
+
+        seen = set()
+
+        def walk(n):
+            if n in seen:
+                return
+            seen.add(n)
+            for b, linked in up.get(n, []):
+                if linked:
+                    walk(b)
+                else:
+                    lock_all(b)
+
+        walk(start)
+        return locked
+
+    L, N = True, False
+    scenarios = {
+        "leaf -linked-> mid -linked-> top": [("leaf", "mid", L), ("mid", "top", L)],
+        "leaf -linked-> mid -plain-> top": [("leaf", "mid", L), ("mid", "top", N)],
+        "leaf -plain-> mid -linked-> top": [("leaf", "mid", N), ("mid", "top", L)],
+        "leaf -plain-> mid -plain-> top": [("leaf", "mid", N), ("mid", "top", N)],
+        "a fork (linked a over plain c, plain b over linked d)": [("leaf", "a", L), ("leaf", "b", N), ("a", "c", N), ("b", "d", L)],
+        "three linked levels over a plain root": [("leaf", "m1", L), ("m1", "m2", L), ("m2", "root", N)],
+        "a diamond (linked a and b, a linked to top, b plain to top)": [("leaf", "a", L), ("leaf", "b", L), ("a", "top", L), ("b", "top", N)],
+    }
+    problems = []
+    for label, edges in scenarios.items():
+        nodes = graph(edges)
+        hi = HostInterp(raw, nodes["leaf"], {}, globals_env={}, classes={}, functions={})
+        try:
+            hi.call_function(raw[w.name], [nodes["leaf"]], {}, {})
+        except (AnalysisError, Raised, TypeError, AttributeError, KeyError, RecursionError):
+            return None
+        got = {k for k, o in nodes.items() if o._locked is True}
+        want = reference(edges, "leaf")
+        if got != want:
+            extra, missing = sorted(got - want), sorted(want - got)
+            what = []
+            if extra:
+                what.append(f"{', '.join(extra)} locked although every edge down to the built child is linked (its later changes can no longer reach the child: they raise instead)")
+            if missing:
+                what.append(f"{', '.join(missing)} left open although the child does not follow its changes")
+            problems.append(f"[{label}] " + "; ".join(what))
+    return problems
 
 
 def _children_writer_by_interpretation(ctx, m, upd):
